@@ -307,4 +307,44 @@ Proof.
     rewrite Hfa, (Hfree eq_refl) in Hst2. eauto.
 Qed.
 
+(** ** reachable states: after ANY script from a new slab *)
+Definition reachable (y : sys) : Prop :=
+  exists ops outs, run spp (init spp) ops = Some (y, outs).
+
+Lemma run_app ops1 : forall y ops2 y1 l1,
+  run spp y ops1 = Some (y1, l1) ->
+  run spp y (ops1 ++ ops2) = match run spp y1 ops2 with Some (y2, l2) => Some (y2, l1 ++ l2) | None => None end.
+Proof using.
+  induction ops1 as [|o r IH]; intros y ops2 y1 l1 H; cbn [run app] in *.
+  - inversion H; subst. destruct (run spp y1 ops2) as [[y2 l2]|]; reflexivity.
+  - destruct (step y o) as [y' out| | |] eqn:E.
+    + destruct (run spp y' r) as [[yf l]|] eqn:Er; [|discriminate]. inversion H; subst.
+      rewrite (IH y' ops2 y1 l Er). destruct (run spp y1 ops2) as [[y2 l2]|]; reflexivity.
+    + destruct (run spp y r) as [[yf l]|] eqn:Er; [|discriminate]. inversion H; subst.
+      rewrite (IH y ops2 y1 l Er). destruct (run spp y1 ops2) as [[y2 l2]|]; reflexivity.
+    + destruct (run spp y r) as [[yf l]|] eqn:Er; [|discriminate]. inversion H; subst.
+      rewrite (IH y ops2 y1 l Er). destruct (run spp y1 ops2) as [[y2 l2]|]; reflexivity.
+    + discriminate.
+Qed.
+
+Theorem reachable_init : reachable (init spp).
+Proof using. exists [], []. reflexivity. Qed.
+
+Theorem reachable_inv y : reachable y -> YInv y.
+Proof.
+  intros (ops & outs & Hrun). destruct (run_init_inv spp spp_pos ops) as (yf & l & Hrun' & HY).
+  rewrite Hrun in Hrun'. inversion Hrun'; subst. exact HY.
+Qed.
+
+Theorem reachable_step y o y' out : reachable y -> step y o = Done y' out -> reachable y'.
+Proof using.
+  intros (ops & outs & Hrun) Hst. exists (ops ++ [o]), (outs ++ [Done y' out]).
+  rewrite (run_app ops _ [o] y outs Hrun). cbn [run]. rewrite Hst. reflexivity.
+Qed.
+
+Theorem reachable_never_broken y o : reachable y -> step y o <> Broken.
+Proof.
+  intros HR E. pose proof (step_inv y o (reachable_inv y HR)) as H. rewrite E in H. exact H.
+Qed.
+
 End Thms.
